@@ -314,6 +314,10 @@ def join_aux(source_name, source_key, source_delete,  # noqa: C901
             data_type = AGGREGATORS[agg].dataType
             copy_properties = AGGREGATORS[agg].copyProperties
             to_copy = {}
+            if agg == 'avg' and any(f['name'] == spec['name'] and f['type'] == 'duration'
+                                    for f in source_spec['schema']['fields']):
+                # the average of durations is a duration
+                data_type = 'duration'
             if data_type is None:
                 try:
                     source_field = \
